@@ -27,6 +27,20 @@ def direct(kind, d):
     if back != d:
         return {"key": None, "what": "from_string(str(d)) differs from d", "kind": kind, "text": text, "def": PS.def_to_json(d),
                 "parsed": PS.def_to_json(back)}
+    # what a caller does to ITS parse result must not show in a later parse of the same text (results are not shared)
+    want = PS.def_to_json(d)
+    for v in vars(back).values():
+        if isinstance(v, list):
+            v.append("injected")
+        elif isinstance(v, dict):
+            v["INJECTED"] = ["x"]
+    try:
+        again = PS.CLS[kind].from_string(text)
+    except BaseException as e:  # noqa: BLE001
+        return {"key": None, "what": f"a second parse of the same text raised {type(e).__name__}", "kind": kind, "text": text, "def": want}
+    if PS.def_to_json(again) != want:
+        return {"key": None, "what": "from_string(str(d)) differs from d after an earlier parse result of the same text was extended by its caller "
+                "(parse results are shared)", "kind": kind, "text": text, "def": want, "parsed": PS.def_to_json(again)}
     return None
 
 
